@@ -6,7 +6,9 @@
 (*   reset                 a new Graph                                     *)
 (*   update  k tree        Graph::update_key(key k, Markdown of tree)      *)
 (*   patch                 new_patch + build_key_from_iter of every note   *)
-(* and carries nodes = [kind, prev, next, child, key]* and keys = [k, root]*.*)
+(* and carries nodes = [kind, prev, next, child, key]*, keys = [k, root]*   *)
+(* and, for update, index = [k, b, i]*: the node ids the reference index   *)
+(* answers for note k (block references, links in text).                   *)
 (* The spec action is taken, and the state it predicts is compared with    *)
 (* the recorded one node by node; the forest invariants of Arena.tla are   *)
 (* evaluated on the recorded arena itself, so that they are judged on what *)
@@ -23,8 +25,18 @@ ObsNodes(e) == [i \in 1..Len(e.nodes) |-> [kind |-> e.nodes[i].kind, prev |-> e.
 ObsKeys(e) == [k \in {x.k : x \in Range(e.keys)} |-> (CHOOSE x \in Range(e.keys) : x.k = k).root]
 KeyStr(k) == "n" \o ToString(k)
 
-\* the model writes naturals for keys, the code strings
-ModelNodes(ns) == [i \in 1..Len(ns) |-> [ns[i] EXCEPT !.key = IF ns[i].kind = "D" THEN KeyStr(ns[i].key) ELSE ""]]
+\* the model writes naturals for keys, the code strings; the recording has the structural fields
+ModelNodes(ns) == [i \in 1..Len(ns) |-> [kind |-> ns[i].kind, prev |-> ns[i].prev, next |-> ns[i].next, child |-> ns[i].child,
+                                           key |-> IF ns[i].kind = "D" THEN KeyStr(ns[i].key) ELSE ""]]
+
+\* the answers of the reference index recorded with the call: for each asked note the node ids of
+\* the block references and of the blocks whose text links to it
+SetOf(s) == {s[i] : i \in 1..Len(s)}
+IndexDiff(ix, ns, e) ==
+    (IF e.index_panic THEN {<<"asking-the-index-panicked">>} ELSE {}) \cup
+    UNION {(IF IndexRefsTo(ix, ns, "b", a.k) # SetOf(a.b) THEN {<<"block-references-to", a.k, IndexRefsTo(ix, ns, "b", a.k), SetOf(a.b)>>} ELSE {})
+           \cup (IF IndexRefsTo(ix, ns, "i", a.k) # SetOf(a.i) THEN {<<"inline-references-to", a.k, IndexRefsTo(ix, ns, "i", a.k), SetOf(a.i)>>} ELSE {})
+           : a \in Range(e.index)}
 
 NodeDiff(exp, obs) ==
     (IF Len(exp) # Len(obs) THEN {<<"arena-length", Len(exp), Len(obs)>>} ELSE {})
@@ -49,12 +61,13 @@ TInit == Init /\ l = 1
 IsEvent(name) == l <= Len(Rec) /\ Rec[l].ev = name /\ l' = l + 1
 
 TReset == /\ IsEvent("reset")
-          /\ nodes' = <<>> /\ keys' = [k \in {} |-> 0] /\ docs' = [k \in {} |-> 0] /\ ops' = 0 /\ patch' = <<>>
+          /\ nodes' = <<>> /\ keys' = [k \in {} |-> 0] /\ docs' = [k \in {} |-> 0] /\ ops' = 0 /\ patch' = <<>> /\ index' = {}
 
 TUpdate == /\ IsEvent("update")
            /\ LET e == Rec[l] IN
               /\ Update(e.k, e.tree)
               /\ Verdict(e, {<<"model", d>> : d \in NodeDiff(ModelNodes(nodes'), ObsNodes(e))}
+                            \cup {<<"index", d>> : d \in IndexDiff(index', nodes', e)}
                             \cup {<<"keys", keys', ObsKeys(e)>> : z \in First(IF keys' = ObsKeys(e) THEN {} ELSE {1})}
                             \cup {<<"forest", r>> : r \in ForestReasons(ObsNodes(e), ObsKeys(e))})
 
